@@ -415,8 +415,9 @@ def build_history(ctx, rng, fmt="2a", nrevs=8, nbranches=2, names=None, weights=
         if merges and r < 0.45 and len(h.trees) > 1:
             other = rng.choice([b for b in bnames if b != name])
             ob = Branch.open(h.trees[other])
-            if wt.branch.repository.get_graph().is_ancestor(ob.last_revision(), wt.last_revision()) and \
-                    not ob.repository.get_graph().is_ancestor(wt.last_revision(), ob.last_revision()):
+            with wt.lock_read():
+                already = wt.branch.repository.get_graph().is_ancestor(ob.last_revision(), wt.last_revision())
+            if already:
                 continue
             try:
                 with wt.lock_write():
